@@ -14,7 +14,8 @@ THEOREMS = [
     "Astm.C03.example_sessions", "Astm.run_refines",
 ]
 RULE = ("sequences of 1-5 sessions on one connection; each session = ENQ, 0-3 messages split into 1-4 frames, text bytes "
-        "from all 256 values except framing controls with a bias to >= 0x80, ended by EOT / EOT with nothing accepted / "
+        "from all 256 values except framing controls with a bias to >= 0x80, any frame of a run possibly damaged and "
+        "retransmitted, ended by EOT / EOT with nothing accepted / "
         "abandoned multi-frame run then EOT / disconnect / timeout; all formats; non-trivial = >= 2 sessions, >= 1 "
         "multi-frame message and >= 1 byte >= 0x80")
 LEVEL_NOTE = ("proof: queue = declarative deliveriesSpec for every event history and format (json: the item is "
@@ -51,7 +52,14 @@ def sessions(r, conformant=False):
                 meta["multi"] += 1
             if any(b >= 0x80 for b in text):
                 meta["high"] += 1
-            for f in frames:
+            # E1381 retransmission: a frame of the run (first, middle or last) arrives damaged, is NAKed, and only that
+            # frame is sent again
+            bad_at = r.randrange(len(frames)) if r.random() < 0.3 else None
+            for i, f in enumerate(frames):
+                if i == bad_at:
+                    for _ in range(r.choice([1, 1, 2])):
+                        evs.append(("d", gens.corrupt(r, f)[0]))
+                    meta["retransmissions"] = meta.get("retransmissions", 0) + 1
                 evs.append(("d", f))
         if ending == "abandoned":
             # an unfinished multi-frame run: intermediate frames without their final frame
@@ -86,6 +94,8 @@ def run(ctx):
             meta["nontrivial"] = meta["sessions"] >= 2 and meta["multi"] >= 1 and meta["high"] >= 1
             for e in meta["endings"]:
                 s.count(e)
+            if meta.get("retransmissions"):
+                s.count("with-retransmission")
             hs.append((fmt, evs + gens.PROBE, meta))
         run_histories_fmt(s, hs, ctx)
         if conformant:
